@@ -65,4 +65,42 @@ def handleAlphaView (fs : List (String × String)) : String :=
     | _, _ => "BAD-REQUEST hex"
   | _, _, _, _, _, _, _, _, _ => "BAD-REQUEST fields"
 
+/-- `opview op=<name> spt=<PT> dpt=<PT> dview=<shape> srcsame=0|1 dbuf=<hex before> got=ok:<hex after>|err:<Kind>:<hex after>|panic:..
+           ref=ok:<hex: result of the same operation into an exact-size destination>|err:<Kind>:..`
+    C05 / C13 for component conversion and colour mapping: through any destination container the operation
+    assigns exactly the pixels of the destination view - with the values it produces into an exact-size
+    image (that result is judged by C16 / C17) - changes nothing else and leaves the source alone. -/
+def handleOpView (fs : List (String × String)) : String :=
+  match (getField fs "dpt").bind PixT.ofName, (getField fs "dview").bind parseShape, getField fs "dbuf",
+        getField fs "got", getField fs "ref", getField fs "srcsame" with
+  | some p, some dv, some dH, some got, some ref, some srcsame =>
+    match parseComps p.kind dH with
+    | none => "BAD-REQUEST hex"
+    | some dbuf =>
+      let n := p.n
+      let (gstat, ghex) := splitStatus got
+      let (rstat, rhex) := splitStatus ref
+      if srcsame != "1" then "SPEC-FAIL the source image was modified" else
+      if gstat != rstat then s!"SPEC-FAIL outcome {gstat} through the container, {rstat} with an exact-size destination" else
+      match parseComps p.kind ghex with
+      | none => "BAD-REQUEST got hex"
+      | some gbuf =>
+        if gbuf.size ≠ dbuf.size then "SPEC-FAIL the destination buffer changed its size" else
+        let expected : Option (Array Int) :=
+          if gstat == "ok" then (parseComps p.kind rhex).map fun r => injectImg dv n ⟨dv.width, dv.height, n, r⟩ dbuf
+          else some dbuf
+        match expected with
+        | none => "BAD-REQUEST ref hex"
+        | some e =>
+          let ce := canonComps p.kind e
+          let cg := canonComps p.kind gbuf
+          match firstDiff ce cg with
+          | none => "OK"
+          | some i =>
+            let inside := ((dv.rows 0).flatten).contains (i / n)
+            if gstat != "ok" then s!"SPEC-FAIL destination modified although the call failed (component {i})"
+            else if inside then s!"SPEC-FAIL destination pixel {i / n} (inside the view) is {cg[i]!}, exact-size result is {ce[i]!}"
+            else s!"SPEC-FAIL pixel {i / n} outside the destination view changed"
+  | _, _, _, _, _, _ => "BAD-REQUEST fields"
+
 end Fir
